@@ -60,6 +60,7 @@ def data():
         _D["short"] = {norm(d) for d in SHORTENER_DOMAINS}
         _D["resolve"] = _D["short"] | {norm(d) for d in SHOULD_RESOLVE_DOMAINS}
         _D["lists"] = dict(youtube=list(YOUTUBE_DOMAINS), short=list(SHORTENER_DOMAINS), extra=list(SHOULD_RESOLVE_DOMAINS))
+        # NOTE: the shortener set is taken from the list, never from the (shared, mutable) trie object
     return _D
 
 
@@ -224,7 +225,7 @@ def _enum_patterns(acc, shard, nshards, seed, tier):
 def _enum_lists(acc, shard, nshards, seed, tier):
     D = data()["lists"]
     idx = 0
-    for pred, doms in (("is_youtube_url", D["youtube"]), ("is_shortened_url", D["short"]), ("should_resolve", D["short"] + D["extra"])):
+    for pred, doms in (("is_youtube_url", D["youtube"]), ("is_shortened_url", D["short"] + D["extra"]), ("should_resolve", D["short"] + D["extra"])):
         for i, d in enumerate(doms):
             if i % nshards != shard:
                 continue
